@@ -82,6 +82,10 @@ func (P *Prog) verifyFunctionCase(fn *ssa.Function, con *Contract, caseParam str
 		vc.caseTag = fmt.Sprintf("[%s=%d]", caseParam, caseValue)
 	}
 	vc.mathInts = con.opt("mathints")
+	if con.opt("digits") {
+		// decval/decvalid denote the digit-string theory's dv/dvalid in this function (see digitAxioms)
+		vc.digitTheory, vc.needDigits, vc.needStr = true, true, true
+	}
 	for _, n := range strings.Split(con.Options["reveal"], ",") {
 		if n != "" {
 			vc.revealed[n] = true
@@ -155,6 +159,9 @@ func (P *Prog) verifyFunctionCase(fn *ssa.Function, con *Contract, caseParam str
 	for _, r := range con.Requires {
 		t := vc.evalSpecBool(env, r)
 		vc.assume(st, t)
+		if strings.HasSuffix(r.Label, "!init") {
+			vc.trusted[res.Name+" ["+r.Label+"] "+r.Src+" (initialisation fact assumed, not checked at call sites)"] = true
+		}
 	}
 	env.pol = 0
 	// vacuity: the precondition must be satisfiable
